@@ -490,7 +490,7 @@ func runC01_5(c *core.Ctx) {
 			if op != token.EQL && op != token.NEQ {
 				return in
 			}
-			be, ok := ast.Unparen(x).(*ast.BinaryExpr)
+			be, ok := seeThrough(f, x).(*ast.BinaryExpr) // ev & M, possibly through a local that names the masked value
 			if !ok || be.Op != token.AND {
 				return in
 			}
